@@ -13,7 +13,14 @@ DEFAULT_CFG = (1000, 100, 10000, 5000)
 # With non-dyadic values (the source's default 100 ms) Twisted's LoopingCall can see `runningFor % interval`
 # one ulp below the interval and schedule a tick "now".  The model takes what `_scheduleFrom` computed as an
 # external answer (`fire <id> <delay>`), so such scenarios are followed exactly (counted as `float_artefact`).
-CFGS = [DEFAULT_CFG, DEFAULT_CFG, DEFAULT_CFG, (1000, 125, 10000, 5000), (500, 50, 2000, 1000), (1000, 100, 10000, 300), (3000, 0, 7000, 2500), (100, 100, 100, 5000)]
+# an optional 5th element 1: when the group cancels `_load_topic_partitions` the client call is sleeping before
+# a retry, so the cancellation surfaces as CancelledError instead of a KafkaError (model: Cfg.partsCancelSleeping)
+CFGS = [DEFAULT_CFG, DEFAULT_CFG, DEFAULT_CFG, (1000, 125, 10000, 5000), (500, 50, 2000, 1000), (1000, 100, 10000, 300), (3000, 0, 7000, 2500), (100, 100, 100, 5000),
+        DEFAULT_CFG + (1,), (1000, 125, 10000, 5000, 1)]
+
+
+def cfg_words(cfg):
+    return " ".join("%d" % x for x in cfg)
 
 ERR_KINDS = [
     "rebalanceInProgress", "notCoordinator", "coordinatorNotAvailable", "coordinatorLoadInProgress", "illegalGeneration",
@@ -198,11 +205,11 @@ def run_impl(scn):
 
 
 def model_lines(scn):
-    return ["reset %d %d %d %d" % tuple(scn["cfg"])] + ["ev " + e for e in scn["events"]]
+    return ["reset " + cfg_words(scn["cfg"])] + ["ev " + e for e in scn["events"]]
 
 
 def monitor_lines(scn, steps, pid):
-    out = ["mon-reset %d %d %d %d" % tuple(scn["cfg"])]
+    out = ["mon-reset " + cfg_words(scn["cfg"])]
     for s in steps:
         out.append("mon-ev " + s["ev"])
         for o in s["obs"]:
